@@ -502,11 +502,18 @@ class SSETransport(Transport):
                         logger.warning(
                             f"Unexpected response status: {response.status_code}"
                         )
-                        # Try to parse response anyway
+                        # Use the body only if it is the answer to this request
                         try:
                             response_data = response.json()
-                            await self._route_incoming_message(response_data)
                         except Exception:
+                            response_data = None
+                        if (
+                            isinstance(response_data, dict)
+                            and str(response_data.get("id")) == message_id
+                            and ("result" in response_data or "error" in response_data)
+                        ):
+                            await self._route_incoming_message(response_data)
+                        else:
                             # Send error response
                             error_response = {
                                 "jsonrpc": "2.0",
